@@ -213,12 +213,14 @@ class Ready:
                     if not info:
                         return False
                     it = info['iter']
-                    while it[0] in ('enumerate', 'copied', 'take', 'skip'):
-                        it = it[1]
-                    if it[0] == 'range':
-                        return entails_h(H, op('lt', it[1], it[2])) if not it[3] else entails_h(H, op('le', it[1], it[2]))
-                    if it[0] == 'iter':
-                        return entails_h(H, op('ge', ('len', it[1]), lit(1, 'i')))
+                    # number of iterations from the iterator description (skip / take / zip / rev are accounted for)
+                    from .vg import iter_desc
+                    try:
+                        d_ = iter_desc(it)
+                    except Exception:
+                        d_ = None
+                    if d_ is not None and d_[0] is not None:
+                        return entails_h(H, op('ge', d_[0], lit(1, 'i')))
                     return False
                 ev_terms = [x for x in ev.data if isinstance(x, tuple)] + [c for c in pc if isinstance(c, tuple)]
                 if ev.kind in ('debug_assert', 'assert'):
